@@ -212,7 +212,7 @@ def _worker(args):
     _quiet()
     # stderr noise of joblib workers / rdkit goes to a log file, never to stdout
     try:
-        log = open(os.path.join(LOGDIR, "%s-%s.log" % (prop_id, spec["name"])), "a")
+        log = open(os.path.join(LOGDIR, "%s-%s.log" % (prop_id, spec["name"].replace("/", "_"))), "w")
         os.dup2(log.fileno(), 2)
         os.dup2(log.fileno(), 1)   # code under test print()s; results travel through the pool pipe, not stdout
     except Exception:
@@ -233,11 +233,55 @@ def _worker(args):
             return ("ok", fails)
     except BaseException:
         return ("error", "shard %s: %s" % (spec.get("name"), traceback.format_exc()))
+    finally:
+        _stop_loky()
+
+
+def _stop_loky():
+    """joblib's reusable loky executor keeps idle workers for 300 s; a (non-daemonic) pool worker would wait for
+    them at exit. Kill them as soon as the shard is done."""
+    try:
+        mod = sys.modules.get("joblib.externals.loky.reusable_executor")
+        ex = getattr(mod, "_executor", None) if mod is not None else None
+        if ex is not None:
+            ex.shutdown(wait=True, kill_workers=True)
+    except Exception:
+        pass
+
+
+class _Pool:
+    """spawn-context process pool whose workers are NOT daemonic: joblib silently falls back to n_jobs=1 inside a
+    daemonic process (multiprocessing.Pool workers are), which would make every 'worker count' shard sequential."""
+
+    def __init__(self, n):
+        import concurrent.futures as cf
+        import multiprocessing as mp
+        self.ex = cf.ProcessPoolExecutor(max_workers=n, mp_context=mp.get_context("spawn"), max_tasks_per_child=1)
+
+    def __enter__(self):
+        return self
+
+    def __exit__(self, *a):
+        self.ex.shutdown(wait=True, cancel_futures=True)
+
+    def imap_unordered(self, fn, jobs):
+        import concurrent.futures as cf
+        futs = [self.ex.submit(fn, j) for j in jobs]
+        for f in cf.as_completed(futs):
+            try:
+                yield f.result()
+            except BaseException as e:   # a worker process died
+                yield ("error", "worker process failed: %r" % (e,))
+
+    def apply(self, fn, args):
+        try:
+            return self.ex.submit(fn, *args).result()
+        except BaseException as e:
+            return ("error", "worker process failed: %r" % (e,))
 
 
 def _pool(n):
-    import multiprocessing as mp
-    return mp.get_context("spawn").Pool(n, maxtasksperchild=1)
+    return _Pool(n)
 
 
 # --------------------------------------------------------------------- main side
@@ -367,12 +411,18 @@ def run_property(prop_id, tier, seed, only_shards=None, procs=None):
     cap = 60 if tier == "quick" else 300
     shrink_budget = 150 if tier == "quick" else 900   # total seconds spent shrinking over all buckets
     t_shrink = 0.0
+    t_post = time.time()
+    post_budget = 300 if tier == "quick" else 1500
+    verbose = bool(os.environ.get("SYNVERIF_VERBOSE"))
     for bucket, fs in buckets.items():
+        if verbose:
+            print("[post] bucket %s: %d failing case(s), t=%.0fs" % (bucket, len(fs), time.time() - t_post), file=sys.stderr)
         fs.sort(key=lambda f: len(json.dumps(f["case"])))
         f0 = min(fs, key=lambda f: (f["shard"], f["index"]))
         spec = spec_by_name[f0["shard"]]
         best = None
-        if spec.get("shrinkable", True) and hasattr(mod, "shrink_shard") and t_shrink < shrink_budget:
+        fast = (time.time() - t_post) > post_budget   # many buckets: stop shrinking, confirm the smallest case only
+        if spec.get("shrinkable", True) and hasattr(mod, "shrink_shard") and t_shrink < shrink_budget and not fast:
             ts = time.time()
             with _pool(1) as pool:
                 status, payload = pool.apply(_worker, ((prop_id, spec, seed * 1000 + spec["seed_offset"], tier,
@@ -381,6 +431,8 @@ def run_property(prop_id, tier, seed, only_shards=None, procs=None):
             if status == "ok" and payload is not None:
                 best = payload
         candidates = ([best] if best is not None else []) + [fs[0]["case"], f0["case"]]
+        if fast:
+            candidates = candidates[:1]
         confirmed = None
         for cand in candidates:
             confirm_spec = spec_by_name[f0["shard"]]
